@@ -2,7 +2,7 @@
    the C19/ files; Print Assumptions is evaluated by ./check on every run. *)
 From Coq Require Import List ZArith Bool.
 From TskVerif Require Import Base.Common C19.Model C19.IbdAlg C19.RunsProofs C19.StoreProofs
-  C19.SpecProofs C19.AlgProofs.
+  C19.SpecProofs C19.AlgProofs C19.SliceProofs C19.RefineProofs.
 Import ListNotations.
 Open Scope Z_scope.
 
@@ -127,3 +127,54 @@ Theorem max_time_strict_refuted :
     ibd_spec c = Ok r /\ In pr r /\ In s (snd pr) /\
     cmaxtime2 c = Some m /\ get (ctimes c) (seg_node s) = Ok t /\ ~ (2 * t < m).
 Proof. exact max_time_strict_refuted_lemma. Qed.
+
+(* the maximal runs are the ONLY in-order, disjoint, unmergeable segmentation with the given
+   expansion: any algorithm whose per-pair output has these three properties returns the
+   specification's segments *)
+Theorem runs_unique :
+  forall (A : Type) (eqb : A -> A -> bool),
+    (forall a b, eqb a b = true -> a = b) -> (forall a, eqb a a = true) ->
+    forall (start : Z) (l : list (option A)) (segs : list (Z * Z * A)),
+      ordered start (start + zlen l) segs -> no_merge eqb segs ->
+      map (fun x => lookup x segs) (zrange start (length l)) = l ->
+      segs = runs eqb start l.
+Proof. exact (@runs_unique_lemma). Qed.
+
+(* (f) refinement tsk_ibd_finder -> specification, PARTIAL.
+
+   Full statement (not proved; tied per run by c19_check_alg / c19_check_spec on every case):
+     forall c st r, valid c ->
+       ibd_alg c true true = Ok st -> ibd_spec c = Ok r ->
+       map (fun p => (fst p, seg_sort (snd p))) (store_result st) = r.
+
+   Proved part: position-wise correctness of the unfiltered sweep.  For every lattice position
+   x, every pair a <> b and the specification's label of (x, a, b): among the records of the
+   algorithm model, exactly one covers x and belongs to the pair if the pair is requested
+   (both nodes in the sample sets, in different sets for `between`) and has a common ancestor
+   at x, and its node is the specification's MRCA; otherwise there is none.  Hence the
+   algorithm's segments of a pair are disjoint, cover exactly the positions with a common
+   ancestor, and carry the right ancestor.  Together with alg_filter_commutes this extends to
+   the filtered run.
+   Missing for the full statement: (1) that the segment END POINTS are exactly the positions
+   where one of the two edge chains changes (maximality / no over-splitting w.r.t. chains);
+   (2) the hypotheses valid_at are assumed, not derived from tsk_table_collection_check_integrity;
+   (3) `requested` is expressed with the algorithm's sample_set_id array, its equality with
+   Model.pair_requested is only checked per run. *)
+Theorem ibd_alg_refines_spec_partial :
+  forall (c : case) (ssid : list Z) (out0 : list record) (x a b : Z) (lab : option label),
+    init_ssid c = Ok ssid ->
+    valid_at (ctimes c) (cedges c) x ->
+    0 <= x < cL c -> a <> b ->
+    ibd_records (unfiltered c) = Ok out0 ->
+    label_at (spec_fuel c) (cedges c) x a b = Ok lab ->
+    map (fun r => seg_node (rec_seg r)) (filter (fun r => covx x (rec_seg r) && pair_is a b r) out0)
+    = if requested (is_between c) ssid a b
+      then match lab with Some l => [label_mrca l] | None => [] end
+      else [].
+Proof. exact alg_position_correct_lemma. Qed.
+
+(* the hypotheses of the previous theorem are decidable; the checker is evaluated on every
+   generated case by the correspondence (c19_check_valid) *)
+Theorem valid_at_checker_sound :
+  forall times es x, valid_atb times es x = true -> valid_at times es x.
+Proof. exact valid_atb_sound. Qed.
